@@ -247,10 +247,37 @@ def run_log(qualname: str, *args, **kw):
     return r, list(TAPE.log)
 
 
+def _rebound(obj, saved, depth=0):
+    """obj with every mirrored dispatcher inside it replaced by its mirror: dicts / lists are changed in place
+    (and recorded in `saved` for restoration), tuples are rebuilt"""
+    if isinstance(obj, CPUDispatcher):
+        return MIRROR.get(id(obj), obj)
+    if depth > 3:
+        return obj
+    if isinstance(obj, dict) and len(obj) <= 2000:
+        for k, v in list(obj.items()):
+            nv = _rebound(v, saved, depth + 1)
+            if nv is not v:
+                saved.append(("item", obj, k, v))
+                obj[k] = nv
+        return obj
+    if isinstance(obj, list) and len(obj) <= 2000:
+        for k, v in enumerate(obj):
+            nv = _rebound(v, saved, depth + 1)
+            if nv is not v:
+                saved.append(("item", obj, k, v))
+                obj[k] = nv
+        return obj
+    if isinstance(obj, tuple) and len(obj) <= 2000:
+        new = tuple(_rebound(v, saved, depth + 1) for v in obj)
+        return new if any(a is not b for a, b in zip(new, obj)) else obj
+    return obj
+
+
 @contextlib.contextmanager
 def patched_library():
-    """rebind, in every loaded thefittest.* module, names bound to mirrored dispatchers to their
-    mirrors (whole-run log mode); restored on exit"""
+    """rebind, in every loaded thefittest.* module, names bound to mirrored dispatchers to their mirrors (whole-run log
+    mode) - module globals, module-level containers (pools kept as constants) and class attributes; restored on exit"""
     if not BY_NAME:
         build()
     saved = []
@@ -258,14 +285,34 @@ def patched_library():
         if m is None or not mn.startswith("thefittest"):
             continue
         for k, v in list(vars(m).items()):
-            if isinstance(v, CPUDispatcher) and id(v) in MIRROR:
-                saved.append((m, k, v))
-                setattr(m, k, MIRROR[id(v)])
+            if isinstance(v, CPUDispatcher):
+                if id(v) in MIRROR:
+                    saved.append(("attr", m, k, v))
+                    setattr(m, k, MIRROR[id(v)])
+            elif isinstance(v, (dict, list, tuple)) and not k.startswith("__"):
+                nv = _rebound(v, saved)
+                if nv is not v:
+                    saved.append(("attr", m, k, v))
+                    setattr(m, k, nv)
+            elif isinstance(v, type) and getattr(v, "__module__", None) == mn:
+                for ck, cv in list(vars(v).items()):
+                    if ck.startswith("__") or not isinstance(cv, (dict, list, tuple)):
+                        continue
+                    ncv = _rebound(cv, saved)
+                    if ncv is not cv:
+                        try:
+                            setattr(v, ck, ncv)
+                            saved.append(("attr", v, ck, cv))
+                        except (AttributeError, TypeError):
+                            pass
     try:
         yield
     finally:
-        for m, k, v in saved:
-            setattr(m, k, v)
+        for kind, holder, k, v in reversed(saved):
+            if kind == "attr":
+                setattr(holder, k, v)
+            else:
+                holder[k] = v
 
 
 def seed(s: int):
